@@ -142,10 +142,12 @@ def trackOb (e : Ev) (retry : Bool) (t : Track) : Ob → Track
   | _ => t
 
 /-- did this step take the queue (a dispatch)?  The queue before the step plus the (valid: its id is
-    the next one) send made in it, minus the send cancelled in it, lost a member. -/
-def dispatched (nextSid : Sid) (pre : Snap) (s : Step) : Bool :=
+    the next one, and `stop()` has not begun - after that a send is refused, never queued) send made in it,
+    minus the send cancelled in it, lost a member. -/
+def dispatched (nextSid : Sid) (stopped : Bool) (pre : Snap) (s : Step) : Bool :=
   let q := match s.ev with
-    | .send sid _ _ msgs => if sid = nextSid ∧ msgs.isEmpty = false then pre.queue ++ [sid] else pre.queue
+    | .send sid _ _ msgs =>
+      if sid = nextSid ∧ msgs.isEmpty = false ∧ stopped = false then pre.queue ++ [sid] else pre.queue
     | .cancel sid => pre.queue.filter (· ≠ sid)
     | .stop .. => []      -- stop cancels whatever is queued
     | _ => pre.queue
@@ -194,7 +196,7 @@ def track (pre : Snap) (t : Track) (s : Step) : Track :=
   let t3 : Track := match s.ev with
     | .timer tid => { t2 with retryTids := t2.retryTids.filter (· ≠ tid) }
     | _ => t2
-  if s.post.idle || dispatched t.nextSid pre s then { t3 with timersSinceReset := 0 } else t3
+  if s.post.idle || dispatched t.nextSid t.stopped pre s then { t3 with timersSinceReset := 0 } else t3
 
 /-- check every observation of a step against the summary as updated by the observations before it -/
 def checkObs (chk : Track → Ob → Bool) (e : Ev) (retry : Bool) : Track → List Ob → Bool
